@@ -600,3 +600,63 @@ func TestKF_MergeLeavesIsMergingSet(t *testing.T) {
 		t.Errorf("REPRODUCED: after a successful Merge isMerging=%v; deleting a key changes ValidKeyCount from %d to %d (key counting stays disabled)", db.isMerging, before, db.BPTreeIdx["b"].ValidKeyCount)
 	}
 }
+
+// fixed by afc4b9a: a record with an empty value that ends exactly at the end of its segment could not be read
+// through the mmap manager (zero-length read at offset == len(mapping) reported as out of bounds): Open failed.
+func TestKF_MMapEmptyValueAtSegmentEnd(t *testing.T) {
+	dir, _ := ioutil.TempDir("", "kf")
+	defer os.RemoveAll(dir)
+	opt := DefaultOptions
+	opt.Dir = dir
+	opt.SegmentSize = 2 * (DataEntryHeaderSize + 2 + 2) // two records: header + bucket "bk" + key "k1" + empty value
+	db, err := Open(opt)
+	if err != nil {
+		t.Fatal(err)
+	}
+	for _, k := range []string{"k1", "k2", "k3"} {
+		if err := db.Update(func(tx *Tx) error { return tx.Put("bk", []byte(k), []byte(""), Persistent) }); err != nil {
+			t.Fatal(err)
+		}
+	}
+	if err := db.Close(); err != nil {
+		t.Fatal(err)
+	}
+	db, err = Open(opt) // StartFileLoadingMode defaults to MMap
+	if err != nil {
+		t.Fatalf("REPRODUCED: reopen of a directory written by the library failed: %v", err)
+	}
+	defer db.Close()
+	_ = db.View(func(tx *Tx) error {
+		for _, k := range []string{"k1", "k2", "k3"} {
+			if e, err := tx.Get("bk", []byte(k)); err != nil || len(e.Value) != 0 {
+				t.Errorf("REPRODUCED: Get(%s) after reopen: %v", k, err)
+			}
+		}
+		return nil
+	})
+}
+
+// known finding (C06): the empty member can be added and popped but never removed
+func TestKF_SetEmptyMemberNeverRemoved(t *testing.T) {
+	dir, _ := ioutil.TempDir("", "kf")
+	defer os.RemoveAll(dir)
+	opt := DefaultOptions
+	opt.Dir = dir
+	db, err := Open(opt)
+	if err != nil {
+		t.Fatal(err)
+	}
+	defer db.Close()
+	if err := db.Update(func(tx *Tx) error { return tx.SAdd("b", []byte("k"), []byte(""), []byte("x")) }); err != nil {
+		t.Fatal(err)
+	}
+	if err := db.Update(func(tx *Tx) error { return tx.SRem("b", []byte("k"), []byte("")) }); err != nil {
+		t.Fatalf("SRem of the empty member: %v", err)
+	}
+	_ = db.View(func(tx *Tx) error {
+		if is, err := tx.SIsMember("b", []byte("k"), []byte("")); err == nil && is {
+			t.Errorf("REPRODUCED: SRem(b,k,\"\") returned nil and committed, but \"\" is still a member")
+		}
+		return nil
+	})
+}
